@@ -297,3 +297,43 @@ package submission
 //@ ensures [an-empty-set-is-refused] len(scts) == 0 ==> result1 != nil && !ms.called
 //@ ensures [a-list-that-cannot-be-built-is-an-error] ms.called && ms.res1 != nil ==> result1 != nil && len(result0) == 0
 //@ at ms assert [every-sct-of-the-set-in-order] len(ms.scts) == len(scts) && (forall j int :: 0 <= j && j < len(scts) ==> ms.scts[j] == scts[j].SCT)
+
+// C17 "Only usable logs ... are contacted" and the shape addSomeChain relies on: the distributor
+// submits to the logs of the list whose status is usable (pending and qualified logs are kept apart
+// for the optional background submission), with the caller's policy, an empty set of known roots
+// and an empty merged pool; a log for which no client can be built refuses the whole distributor.
+//@ func NewDistributor
+//@ props C17
+//@ arith int
+//@ site SelectByStatus#1 as su
+//@ site SelectByStatus#2 as sp
+//@ site buildLogClients#1 as b1
+//@ site buildLogClients#2 as b2
+//@ requires ll != nil && plc != nil && lcBuilder != nil
+//@ requires forall j int :: 0 <= j && j < len(distributorOptions) ==> distributorOptions[j] != nil
+//@ at su assert [the-logs-submitted-to-are-the-usable-ones] su.ll == ll && len(su.lstats) == 1 && su.lstats[0] == loglist3.UsableLogStatus
+//@ at sp assert [pending-and-qualified-logs-are-kept-apart] sp.ll == ll && len(sp.lstats) == 2 && sp.lstats[0] == loglist3.PendingLogStatus && sp.lstats[1] == loglist3.QualifiedLogStatus
+//@ at b1 assert [clients-for-the-usable-logs] b1.ll.Operators == su.res.Operators && b1.lcBuilder == lcBuilder
+//@ at b2 assert [clients-for-the-pending-logs] b2.ll.Operators == sp.res.Operators && b2.lcBuilder == lcBuilder
+//@ ensures [a-log-without-a-client-refuses-the-distributor] b1.res != nil || (b2.called && b2.res != nil) ==> result1 != nil && result0 == nil
+//@ ensures [the-shape-addSomeChain-relies-on] result1 == nil ==> result0 != nil && result0.ll == ll && result0.usableLl != nil && result0.usableLl.Operators == su.res.Operators && result0.pendingQualifiedLl != nil && result0.policy == plc && result0.pendingLogsPolicy != nil && result0.rootPool != nil && result0.logRoots != nil && result0.logClients != nil
+
+//@ func (DisableRootCompatibilityCheckingDistributorOption).Apply
+//@ props C17
+//@ requires d != nil
+//@ modifies d.rootCompatibilityCheckDisabled
+//@ ensures [switches-root-checking-off-and-nothing-else] result == nil && d.rootCompatibilityCheckDisabled
+
+// Clients are built for every log of the list it is given and filed under the log's URL; the first
+// log for which the builder fails refuses the whole list.
+//@ func (*Distributor).buildLogClients
+//@ props C17
+//@ arith int
+//@ may panic
+//@ note may panic: the client builder is a function value of the caller; what it does to memory is unknown to the generator, so the nil obligations on the list after that call cannot be discharged (they hold if the builder leaves the list alone)
+//@ modifies nothing
+//@ frame-trusted files clients in d.logClients only; the client builder is the caller's and is assumed not to touch the distributor
+//@ requires d != nil && d.logClients != nil && lcBuilder != nil && ll != nil
+//@ requires forall j int :: 0 <= j && j < len(ll.Operators) ==> ll.Operators[j] != nil
+//@ requires forall j int :: 0 <= j && j < len(ll.Operators) ==> (forall k int :: 0 <= k && k < len(ll.Operators[j].Logs) ==> ll.Operators[j].Logs[k] != nil)
+//@ loop 2 step-assert [the-client-just-built-is-filed-under-its-logs-url] has(d.logClients, log.URL)
